@@ -68,6 +68,7 @@ namespace embedded_pairing::bls12_381 {
             int i = 0;
             int16_t u;
             while (!c.is_zero()) {
+                bool carry = false;
                 if (c.is_odd()) {
                     u = (int16_t) (c.bytes[0] & ((1 << (window + 1)) - 1));
 
@@ -81,6 +82,8 @@ namespace embedded_pairing::bls12_381 {
                     } else {
                         a.bytes[0] = (uint8_t) (-u);
                         c.add(c, a);
+                        /* Detect wrap-around of the fixed-width accumulator. */
+                        carry = (BigInt<bits>::compare(c, a) == -1);
                     }
                 } else {
                     u = 0;
@@ -88,6 +91,10 @@ namespace embedded_pairing::bls12_381 {
 
                 wnaf[i++] = (int8_t) u;
                 c.template shift_right_in_word<1>(c);
+                if (carry) {
+                    /* The addition overflowed; the lost bit is the top bit after the shift. */
+                    c.bytes[(bits - 1) / 8] |= (uint8_t) (1 << ((bits - 1) % 8));
+                }
             }
             wnaf_size = i;
         }
